@@ -83,9 +83,12 @@ ORIG = (1, 0, -1)
 GORIG = (1, 2, -1)
 TVEC = {"T0": (Fr(1), Fr(0), Fr(0)), "T0n": (Fr(-1), Fr(0), Fr(0)),
         "T1": (Fr(1, 2), Fr(-2), Fr(4)), "T1n": (Fr(-1, 2), Fr(2), Fr(-4))}
-SCALES = {"2": (Fr(2), None), "half": (Fr(1, 2), None), "2@o": (Fr(2), ORIG), "half@o": (Fr(1, 2), ORIG)}
+# "@v": the origin argument is one of the mesh's own vertex objects (mesh.vertices[n // 2])
+SCALES = {"2": (Fr(2), None), "half": (Fr(1, 2), None), "2@o": (Fr(2), ORIG), "half@o": (Fr(1, 2), ORIG),
+          "2@v": (Fr(2), "own_vertex"), "half@v": (Fr(1, 2), "own_vertex")}
 XYZ = {"A": ((Fr(2), Fr(1, 2), Fr(4)), None), "Ainv": ((Fr(1, 2), Fr(2), Fr(1, 4)), None),
-       "A@o": ((Fr(2), Fr(1, 2), Fr(4)), ORIG), "Ainv@o": ((Fr(1, 2), Fr(2), Fr(1, 4)), ORIG)}
+       "A@o": ((Fr(2), Fr(1, 2), Fr(4)), ORIG), "Ainv@o": ((Fr(1, 2), Fr(2), Fr(1, 4)), ORIG),
+       "A@v": ((Fr(2), Fr(1, 2), Fr(4)), "own_vertex")}
 
 
 # ---------------------------------------------------------------------------------------------------
@@ -186,11 +189,11 @@ MENUS = {
     "full": dict(
         translate=["T0", "T0n", "T1", "T1n"],
         rotate=[f"m:{RZ90}:0", f"o:{RZ270}:0", f"e:{RX90}:0", f"t:{RX270}:0", "o:g+:o", "o:g-:o"],
-        scale=["2", "half", "2@o", "half@o"], scale_xyz=["A", "Ainv", "A@o", "Ainv@o"],
+        scale=["2", "half", "2@o", "half@o", "2@v", "half@v"], scale_xyz=["A", "Ainv", "A@o", "Ainv@o", "A@v"],
         normalize=[True, False, "fit"], to_origin=True, flatten=[2, 0], touch=True,
         copy=[(False, False), (True, False), (False, True), (True, True)], merge3=True),
     "reduced": dict(
-        translate=["T1", "T1n"], rotate=[f"m:{RZ90}:0"], scale=["2"], scale_xyz=["A"], normalize=[True], to_origin=True,
+        translate=["T1", "T1n"], rotate=[f"m:{RZ90}:0"], scale=["2", "2@v"], scale_xyz=["A"], normalize=[True], to_origin=True,
         flatten=[2], touch=False, copy=[(False, False), (True, True)], merge3=False),
     "mini": dict(
         translate=["T1"], rotate=[f"o:{RZ270}:0"], scale=[], scale_xyz=[], normalize=[False], to_origin=False,
@@ -345,11 +348,11 @@ def model_map(ev, V):
         return out, False
     if kind == "scale":
         s, og = SCALES[ev[2]]
-        o = og or (0, 0, 0)
+        o = V[len(V) // 2] if og == "own_vertex" else (og or (0, 0, 0))
         return [tuple(o[r] + s * (p[r] - o[r]) for r in range(3)) for p in V], True
     if kind == "scale_xyz":
         f, og = XYZ[ev[2]]
-        o = og or (0, 0, 0)                       # docstring: "If not provided, it is set at (0,0,0)"
+        o = V[len(V) // 2] if og == "own_vertex" else (og or (0, 0, 0))   # docstring: "If not provided, it is set at (0,0,0)"
         return [tuple(o[r] + f[r] * (p[r] - o[r]) for r in range(3)) for p in V], True
     if kind == "normalize":
         mn = [min(p[r] for p in V) for r in range(3)]
@@ -410,7 +413,7 @@ def param_class(ev):
         return "rot=" + {"m": "matrix", "o": "Rotation", "e": "euler_list", "t": "euler_tuple"}[form] + \
                (":generic" if key[0] == "g" else ":axis") + (":orig=given" if og else ":orig=None")
     if k in ("scale", "scale_xyz"):
-        return "orig=given" if ev[2].endswith("@o") else "orig=None"
+        return "orig=given" if ev[2].endswith("@o") else ("orig=own_vertex" if ev[2].endswith("@v") else "orig=None")
     if k == "normalize":
         return "fit_into_unit_cube" if ev[2] == "fit" else "center_at_zero=%s" % ev[2]
     if k == "flatten":
@@ -761,7 +764,7 @@ class Run:
                 d[i] = np.array(d[i]).view(type(d[i])) if isinstance(d[i], np.ndarray) else d[i]
         X = st2.live[ev[1]]
         fn = self._fn(ev[0], ev)
-        a, kw, _ = self._real_args(ev)
+        a, kw, _ = self._real_args(ev, X)
         o = call(fn, X.real, *a, **kw)
         if not o.ok or any(p is None for p in X.V):
             return None
@@ -904,9 +907,15 @@ class Run:
             sync_all(st)
         return bad
 
-    def _real_args(self, ev):
+    def _real_args(self, ev, X=None):
         from mouette import Vec
         kind = ev[0]
+        if kind in ("scale", "scale_xyz") and str(ev[2]).endswith("@v"):
+            o = X.real.vertices[len(X.real.vertices) // 2]          # the mesh's own vertex object as origin
+            if kind == "scale":
+                return (float(SCALES[ev[2]][0]), o), {}, []
+            f = XYZ[ev[2]][0]
+            return (float(f[0]), float(f[1]), float(f[2]), o), {}, []
         if kind == "translate":
             t = TVEC[ev[2]]
             v = Vec(float(t[0]), float(t[1]), float(t[2]))
@@ -942,7 +951,7 @@ class Run:
         fn = self._fn(kind, ev)
         before, _ = read_vertices(X.real)
         pre = [[vptr(v) for v in L.real.vertices] for L in st.live] if check else None
-        a, kw, watch = self._real_args(ev)
+        a, kw, watch = self._real_args(ev, X)
         o = call(fn, X.real, *a, **kw)
         prev = st.prev
         st.prev = (ev, before, False)
